@@ -65,7 +65,7 @@ def main():
         install_reach_counters(rec, getattr(mod, "REACH", {}))
     try:
         from vf import nsan
-        nsan.install(rec, getattr(mod, "CONTRACTS", ()))
+        nsan.install(rec, mod.contracts_for(spec) if hasattr(mod, "contracts_for") else getattr(mod, "CONTRACTS", ()))
     except Exception:
         rec.inconclusive("nsan install failed: " + traceback.format_exc()[-400:])
     try:
